@@ -333,13 +333,17 @@ func keyOpt(c OptCase) []byte {
 	return keyAlign(c.AlignCase)
 }
 
-func TestC09(t *testing.T) {
-	Run(t, Prop[OptCase]{ID: "C09", Gen: genOpt(false), Exhaustive: exhaustiveC09, Key: keyOpt,
-		Check: func(c OptCase, o *Obs) error { return checkOptimal(c, o, false) }})
+func propC09() Prop[OptCase] {
+	return Prop[OptCase]{ID: "C09", Gen: genOpt(false), Exhaustive: exhaustiveC09, Key: keyOpt,
+		Check: func(c OptCase, o *Obs) error { return checkOptimal(c, o, false) }}
 }
 
-func TestC10(t *testing.T) {
-	Run(t, Prop[OptCase]{ID: "C10", Gen: genOpt(true), Key: keyOpt,
+func TestC09(t *testing.T) { Run(t, propC09()) }
+
+func FuzzGenC09(f *testing.F) { RunFuzz(f, propC09()) }
+
+func propC10() Prop[OptCase] {
+	return Prop[OptCase]{ID: "C10", Gen: genOpt(true), Key: keyOpt,
 		Exhaustive: func(thorough bool, emit func(OptCase) bool) { exhaustiveOpt(thorough, []int{-1, -2, -5}, emit) },
 		Check:      func(c OptCase, o *Obs) error { return checkOptimal(c, o, true) },
 		Known: func(c OptCase, err error) string {
@@ -347,5 +351,9 @@ func TestC10(t *testing.T) {
 				return "c10-single-table"
 			}
 			return ""
-		}})
+		}}
 }
+
+func TestC10(t *testing.T) { Run(t, propC10()) }
+
+func FuzzGenC10(f *testing.F) { RunFuzz(f, propC10()) }
